@@ -880,12 +880,32 @@ func hasOpenTrailingEscape(s string) bool {
 	return n%2 == 1
 }
 
+// endsInImportant reports whether the CSS value s ends in "! important"
+// (any case, white space allowed around the "!").
+func endsInImportant(s string) bool {
+	t := strings.ToLower(strings.TrimSpace(s))
+	if !strings.HasSuffix(t, "important") {
+		return false
+	}
+	t = strings.TrimSpace(strings.TrimSuffix(t, "important"))
+	return strings.HasSuffix(t, "!") && !hasOpenTrailingEscape(strings.TrimSuffix(t, "!"))
+}
+
 // hasBalancedBlocks reports whether every (, [, { and every string in the CSS
 // value s is closed again, in order, and none is closed that was not opened.
 func hasBalancedBlocks(s string) bool {
 	var open []byte
 	for i := 0; i < len(s); i++ {
 		switch c := s[i]; c {
+		case '/':
+			// a comment hides what it contains, brackets included
+			if i+1 < len(s) && s[i+1] == '*' {
+				end := strings.Index(s[i+2:], "*/")
+				if end < 0 {
+					return false
+				}
+				i += 2 + end + 1
+			}
 		case '\\':
 			i++ // the escaped character is not a delimiter
 		case '"', '\'':
@@ -936,6 +956,10 @@ func (p *Policy) sanitizeStyles(attr html.Attribute, elementName string) html.At
 	attr.Val = strings.TrimRight(attr.Val, " ")
 	if len(attr.Val) > 0 && attr.Val[len(attr.Val)-1] != ';' {
 		attr.Val = attr.Val + ";"
+	} else if len(attr.Val) > 0 && hasOpenTrailingEscape(attr.Val[:len(attr.Val)-1]) {
+		// the final ';' is escaped: it belongs to the value, it does not
+		// end the declaration
+		attr.Val = attr.Val + ";"
 	}
 	decs, err := parser.ParseDeclarations(attr.Val)
 	if err != nil {
@@ -955,13 +979,20 @@ decLoop:
 		if hasOpenTrailingEscape(dec.Value) {
 			continue
 		}
+		// The parser takes one trailing "!important" off the value. If there
+		// is still one left ("red !important !important") the value is not
+		// valid, and the next pass would take that one off in turn.
+		if endsInImportant(dec.Value) {
+			continue
+		}
 		// Likewise a value with an unclosed bracket or string: written back,
 		// the bracket or quote swallows the "; " and the next declaration.
 		if !hasBalancedBlocks(dec.Value) {
 			continue
 		}
 		tempProperty := strings.ToLower(dec.Property)
-		tempValue := removeUnicode(strings.ToLower(dec.Value))
+		// (decode first: an escape may stand for an upper-case letter)
+		tempValue := strings.ToLower(removeUnicode(dec.Value))
 		for _, i := range prefixes {
 			tempProperty = strings.TrimPrefix(tempProperty, i)
 		}
@@ -1237,15 +1268,18 @@ func removeUnicode(value string) string {
 			j++
 		}
 		if j == i+1 {
-			// Not a hexadecimal escape: keep the backslash and the character
-			// it escapes together so that neither starts another escape.
-			b.WriteByte(value[i])
+			// Not a hexadecimal escape: the backslash stands for the character
+			// that follows it ("u\rl(" is "url(" for a browser). A backslash
+			// before a line break, or at the very end, escapes nothing and is
+			// kept as it is.
 			i++
-			if i < len(value) {
-				_, size := utf8.DecodeRuneInString(value[i:])
-				b.WriteString(value[i : i+size])
-				i += size
+			if i >= len(value) || value[i] == '\n' || value[i] == '\r' || value[i] == '\f' {
+				b.WriteByte('\\')
+				continue
 			}
+			_, size := utf8.DecodeRuneInString(value[i:])
+			b.WriteString(value[i : i+size])
+			i += size
 			continue
 		}
 		codePoint, _ := strconv.ParseUint(value[i+1:j], 16, 32)
